@@ -152,7 +152,7 @@ _p("C01", "CrossHair/z3: one symbolic call with a symbolic hook-fault schedule f
    "arbitrary fault schedule (any hook invocation, pre or post, may raise; transient <= F faults or persistent from the first one) preserves the invariant; "
    "since every public mutation is one of the three calls this covers histories of any length over N nodes. Run for ANYTREE_ASSERTIONS=0 and 1 (separate imports).",
    "one path = (forest, variant, call, arguments, answers of the fault flags asked by the hooks that fired); non-trivial = a hook raised or the call was refused",
-   "N<=3 nodes, children sequences up to length 3 (+non-node object, +non-iterable), <=1 transient fault or persistent, classes NodeMixin-sub and LightNodeMixin-sub, assertions off and on",
+   "N<=3 nodes, children sequences up to length 3 (+non-node object, +non-iterable), <=1 transient fault or persistent, classes NodeMixin-sub and LightNodeMixin-sub, assertions off and on; plus N=4 without faults for classes whose instances all compare equal",
    "N<=4 with <=1 fault or persistent; N<=3 with <=2 faults; all five node classes; TreeError-derived veto class as well",
    MUT_OUT, COMMON_ASSUME + ["hooks only raise (Veto) or return; the fault flags are the only nondeterminism"])
 
@@ -205,6 +205,9 @@ def obligations(prop, tier):
         for cls in (("mixin", "light") if q else ("mixin", "light", "node", "anynode", "symlink")):
             for asrt in (0, 1):
                 out.append(_mut("step_%s_a%d" % (cls, asrt), "c01_body", {"cls": cls, "N": 3, "L": 3, "faults": "all", "F": 1}, asrt, bounds="N<=3 F<=1|persistent"))
+        for cls in ("mixin_eq", "light_eq"):
+            out.append(_mut("step4_%s" % cls, "c01_body", {"cls": cls, "N": 4, "exactN": True, "L": 1, "faults": "none"}, 1, depth=5,
+                            bounds="N=4, L<=1, no faults, node class whose instances all compare equal"))
         if not q:
             for cls in ("mixin", "light"):
                 out.append(_mut("step4_%s" % cls, "c01_body", {"cls": cls, "N": 4, "exactN": True, "L": 3, "faults": "all", "F": 1}, 1, depth=6, bounds="N=4 F<=1|persistent"))
@@ -213,7 +216,8 @@ def obligations(prop, tier):
     elif prop == "C02":
         for cls in ("mixin", "light"):
             out.append(_mut("effect3_%s" % cls, "c02_body", {"cls": cls, "N": 3, "L": 3}, depth=4, bounds="N<=3 L<=3"))
-            out.append(_mut("effect3_%s_eq" % cls, "c02_body", {"cls": cls + "_eq", "N": 3 if q else 4, "L": 2}, depth=4, bounds="N<=%d L<=2, node class whose instances all compare equal" % (3 if q else 4)))
+            out.append(_mut("effect3_%s_eq" % cls, "c02_body", {"cls": cls + "_eq", "N": 3, "L": 2}, depth=4, bounds="N<=3 L<=2, node class whose instances all compare equal"))
+            out.append(_mut("effect4_%s_eq" % cls, "c02_body", {"cls": cls + "_eq", "N": 4, "exactN": True, "L": 1 if q else 2}, depth=5, bounds="N=4 L<=%d, all-equal node class" % (1 if q else 2)))
             if q:
                 out.append(_mut("effect4_%s" % cls, "c02_body", {"cls": cls, "N": 4, "exactN": True, "L": 2}, depth=5, bounds="N=4 L<=2"))
             else:
@@ -236,6 +240,8 @@ def obligations(prop, tier):
         N = 3 if q else 4
         out.append(_mut("lockstep", "c18_body", {"N": N, "L": 3, "faults": "all", "F": 1}, depth=5 if q else 7, bounds="N<=%d F<=1|persistent" % N))
     elif prop == "C04":
+        out.append(dict(name="nav_mixin_eq", module="harness.navigate", body="c04_body", cfg={"cls": "mixin_eq", "N": 4 if q else 5, "move": False}, depth=4, bounds="N<=%d, all-equal node class" % (4 if q else 5),
+                        picked="n, parent vector (forest)", symbolic="-"))
         for cls in ("mixin", "light"):
             N = 4 if q else 5
             out.append(dict(name="nav_move_%s" % cls, module="harness.navigate", body="c04_body", cfg={"cls": cls, "N": N, "move": True}, depth=4 if q else 5,
@@ -243,6 +249,8 @@ def obligations(prop, tier):
             out.append(dict(name="nav_%s" % cls, module="harness.navigate", body="c04_body", cfg={"cls": cls, "N": N + 1, "move": False}, depth=4 if q else 5,
                             bounds="N<=%d" % (N + 1), picked="n, parent vector (forest)", symbolic="-"))
     elif prop == "C15":
+        out.append(dict(name="walk_mixin_eq", module="harness.navigate", body="c15_body", cfg={"cls": "mixin_eq", "N": 4 if q else 5}, depth=4, bounds="N<=%d, all-equal node class" % (4 if q else 5),
+                        picked="n, parent vector (forest), start, end", symbolic="-"))
         for cls in ("mixin", "light"):
             N = 5 if q else 6
             out.append(dict(name="walk_%s" % cls, module="harness.navigate", body="c15_body", cfg={"cls": cls, "N": N}, depth=4 if q else 5,
